@@ -27,6 +27,17 @@ def tok_record(t):
     return {"op": op, "k": 0, "push": op == "PUSH" and len(w) == 2}
 
 
+# stack permutations of kind "permute" (Mutate.tla: NPerms): single exchanges and the exchange of the operand pairs
+# (s0,s1) <-> (s2,s3) / (s0) <-> (s2) that makes two stores, or a store and a load, trade places
+PERMS = ["SWAP1", "SWAP2", "SWAP3", "SWAP2 SWAP1 SWAP3 SWAP1", "SWAP1 SWAP2 SWAP1", "SWAP1 SWAP3 SWAP1"]
+
+
+# bases on which a permutation exchanges two accesses that may alias (symbolic addresses)
+STORE_PAIRS = ["SSTORE SSTORE", "MSTORE MSTORE", "MSTORE8 MSTORE8", "MSTORE MSTORE8", "MSTORE8 MSTORE", "SSTORE SLOAD", "MSTORE MLOAD",
+               "MSTORE8 MLOAD", "SLOAD SWAP2 SSTORE", "MLOAD SWAP2 MSTORE", "MSTORE KECCAK256", "SSTORE SSTORE SSTORE",
+               "MSTORE MSTORE MSTORE", "DUP2 DUP2 SSTORE SSTORE", "DUP2 DUP2 MSTORE MSTORE"]
+
+
 def apply(tokens, pos, kind, par, repl):
     t = list(tokens)
     i = pos - 1
@@ -45,6 +56,8 @@ def apply(tokens, pos, kind, par, repl):
         t[i:i + 1] = ["DUP2", "DUP2", cur, cur]
     elif kind == "swapnext":
         t[i], t[i + 1] = t[i + 1], t[i]
+    elif kind == "permute":
+        t[0:0] = PERMS[par - 1].split()
     elif kind == "index":
         name = "DUP" if cur.startswith("DUP") else "SWAP"
         k = int(cur[len(name):])
@@ -148,7 +161,7 @@ def mutants_of(bases, tag="mut"):
 def run(tier):
     t0 = time.time()
     seed = common.seed()
-    texts = list(corpus.hand_blocks())
+    texts = list(corpus.hand_blocks()) + STORE_PAIRS
     if tier == "quick":
         for v, shapes, n in ((gen.rule_vocab(gen.C3), gen.RULE_SHAPES_BASIC, 150), (gen.mem_vocab(small=True), [["*", "*"]], 120),
                              (gen.sto_vocab(), [["*", "*"]], 80), (gen.stack_vocab(), [["*", "*", "*"]], 80),
@@ -174,7 +187,14 @@ def run(tier):
         return True
     bases = [gen.tokens(t) for t in dict.fromkeys(texts) if gen.tokens(t) and wellformed(gen.tokens(t))]
     muts, mr = mutants_of(bases)
-    muts = corpus.sample(muts, maxmut, seed)
+    # permutations in front of short memory/storage blocks are never sampled away (they make two accesses trade places)
+    def keep(m):
+        b = bases[m[0] - 1]
+        return m[2] == "permute" and len(b) <= 8 and any(t.split()[0] in ("MSTORE", "MSTORE8", "SSTORE", "MLOAD", "SLOAD", "KECCAK256") for t in b)
+    kept = [m for m in muts if keep(m)]
+    if tier == "quick":
+        kept = [m for m in kept if " ".join(bases[m[0] - 1]) in STORE_PAIRS] + corpus.sample([m for m in kept if " ".join(bases[m[0] - 1]) not in STORE_PAIRS], 600, seed)
+    muts = kept + corpus.sample([m for m in muts if not keep(m)], maxmut, seed)
     cmds, meta = [], []
     for bi, b in enumerate(bases):
         cmds.append({"cmd": "compare", "a": " ".join(b), "b": " ".join(b)})
